@@ -252,10 +252,26 @@ def run(run, thorough):
     fn_codec.posix(run, thorough)
     calc_parent(run, thorough)
     state_level(run, thorough)
+    concurrent_writers(run, thorough)
+
+
+def concurrent_writers(run, thorough):
+    """two trash-puts of same-named entries under the lock-step scheduler of C04: whatever the interleaving, each .trashinfo that results
+    records the location and date of the entry lying next to it (the writer of one entry never shows through in the record of another)"""
+    import p_c04
+    scheds = p_c04.schedules_systematic()
+    picks = scheds if thorough else scheds[:14] + scheds[-3:]
+    for shape, sched in picks:
+        scn, steps, victims = p_c04.make_scn(2, ('f', 'f'), 'empty')
+        res = sandbox.execute_concurrent(scn, steps, sched)
+        p_c04.judge(run, dict(scn, steps=steps), res, victims, 'empty', shape, 'concurrent-writers')
 
 
 def replay(run, payload):
     case = payload.get('case') or {}
+    if 'schedule' in case:
+        import p_c04
+        return p_c04.replay(run, payload)
     if 'args_tok' in case:
         rep = model_batch([(case['function'], case['args_tok'])])[0]
         print('model now says:', rep, '| recorded impl:', case.get('impl'), '| recorded model:', case.get('model'))
